@@ -161,7 +161,7 @@ def run_matrix(sel):
         rows.append((key, meta))
     with open(os.path.join(V, 'seeded/RESULTS.md'), 'w') as f:
         f.write('# Seeded changes and the checks that catch them\n\n')
-        f.write('Produced by `python3 tools/build_seeded.py matrix` (quick tier, VERIF_SEED=1; every change applied with `git apply` to /repo or - `tools/pmutant.sh` - to a scratch worktree of /repo's HEAD, checks run, /repo restored / the worktree removed; meta.json of each change names the command that produced its row).\n\n')
+        f.write('Produced by `python3 tools/build_seeded.py matrix` (quick tier, VERIF_SEED=1; every change applied with `git apply` to /repo or - `tools/pmutant.sh` - to a scratch worktree of the HEAD of /repo, checks run, /repo restored / the worktree removed; meta.json of each change names the command that produced its row).\n\n')
         f.write('| change | what it is | needs | own check | other checks run | confirmation (demo with / without, suite with) |\n|---|---|---|---|---|---|\n')
         for key, m in rows:
             pid = key.split('/')[0]
